@@ -7,36 +7,63 @@ Three executions of every generated history are compared after every operation:
   * the Lean model lean/Hgxv/Model/C03.lean through lean/Driver/C03.lean - a difference is a broken correspondence.
 Direct oracles (in the property's own words, on the implementation's outputs only): window selection,
 per-time snapshots, aggregate(w), purity of every derivation (digest before/after), rejected calls are no-ops.
+Strengthening round: fresh equal label / time objects on every call, every argument container type, aliasing in (passed
+containers overwritten after the call) and out (returned containers overwritten or kept and re-compared, returned
+Hypergraphs edited), full option products, per-call probe queries (stale caches), records nested in one another.  A
+difference in the two id listings alone no longer ends the search for a property-level failing input.
 """
 import copy as _copy
 import json
 import math
 import signal
+import zlib
 from fractions import Fraction
 
 import hgxv
 
-RULE = ("random histories (6-40 public mutating calls; 1-2 object slots for copy) over 3-6 nodes (int, shifted int or "
-        "string labels, mapped to ranks), node sets of size 0-4 in permuted order, times 0..12 drawn mostly from a pool "
-        "of 2-4 times so that (time,set) records are re-inserted, removed and re-inserted, weights k/4, both "
-        "weightedness settings, metadata tokens; 10-15% malformed calls (time 1.5 / '3' / -1, missing record or node, "
-        "weight 2 on unweighted, both order and size, bad batches). After every call: full digest + 3 random queries; "
-        "twice per history: every query with every filter (order -1..4, size 0..5, up_to), all windows a,b in -1..14, "
-        "per-time snapshots, aggregate for all widths 1..15 and malformed widths. A history is distinct by its "
-        "canonical op list; non-trivial = >=1 accepted removal and >=1 insertion of a record that is or was present.")
-ASSUMPTIONS = ["node labels are mutually comparable and used only through ==, hash, < (mapped to ranks for the model)",
-               "hyperedges are duplicate-free node tuples (the quantifier says node sets)",
-               "times sent as 'non-integer' are 1.5 and '3'; Python bool is not generated as a time",
-               "weights are multiples of 1/4 (float + is exact), metadata values come from a fixed JSON pool"]
+RULE = ("random histories (6-40 public mutating calls; 1-2 object slots for copy) over 3-6 nodes; labels of 7 kinds (small ints, "
+        "ints > 256, ints > 2^63, floats, literal and run-time strings incl. 0 and ''), every call gets freshly constructed equal "
+        "label / time / window objects; times = steps 0..12 times a per-history scale (1, 257, 1000, 2^40, 2^64+3) drawn mostly "
+        "from a pool of 2-4 so that (time,set) records are re-inserted, removed and re-inserted, plus records nested in present "
+        "ones (same time, one node more or fewer) and remove_node(keep_edges=True) of the node that makes them coincide; "
+        "hyperedge / node-list / record-list / weight / time-list arguments in every container type the unchanged code takes "
+        "(tuple, list, set, frozenset, generator, numpy array, dict keys, range - chosen by a hash of the call, counted in the "
+        "evidence), optional arguments left out in half of the calls; weights k/4 (1 vs 1.0, 0, > 2^32), both weightedness "
+        "settings, metadata tokens; 10-15% malformed calls (time 1.5 / '3' / 3.0 / numpy ints / negative, missing record or node, "
+        "weight 2 on unweighted, both order and size, bad batches, batch containers that add_edges refuses). After every call: "
+        "every container passed in is overwritten by the caller, full digest, 24 fixed probe queries + 3 random queries, every "
+        "returned list/set/dict is overwritten or kept and compared later, returned Hypergraphs are edited; twice per history: every "
+        "query with every filter (order -1..4, size 0..5, up_to), all 256 windows on the time grid, time_window x order/size x "
+        "up_to x metadata in full on windows cut at the records' times, snapshots with/without add_all_nodes, aggregate for 15 "
+        "widths and malformed widths, 20 questions repeated twice in a row. A history is distinct by its canonical op list; "
+        "non-trivial = >=1 accepted removal and >=1 insertion of a record that is or was present.")
+ASSUMPTIONS = ["node labels are mutually comparable and used only through ==, hash, < (mapped to ranks for the model); they are "
+               "not tuples: a 2-element hyperedge of two tuple labels is read as a directed pair by _canon_edge (known finding D50, "
+               "replayed on every run)",
+               "hyperedges are duplicate-free node collections (the quantifier says node sets)",
+               "times sent as 'non-integer' to insertions are 1.5, '3', 3.0, numpy.int64(3), numpy.int32(0) - what the unchanged "
+               "isinstance(time, int) test refuses; Python bool is not generated as a time; lookups / removals get 1.5 and '3' only "
+               "(3.0 and numpy.int64(3) equal the key 3 there)",
+               "weights are multiples of 1/4 below 2^40 (float + is exact), metadata values come from a fixed JSON pool",
+               "argument containers are those the unchanged code accepts: add_edges needs `list`s for the edge and time list (anything "
+               "else must be rejected as a whole) and hashable hyperedges when weights are given; weights / metadata lists are "
+               "indexable sequences; add_nodes with a metadata dict gets a re-iterable node collection; unordered node collections "
+               "are not used where the order of removal matters (remove_nodes with keep_edges=True)",
+               "metadata dicts are shared by reference by the unchanged code (stored as passed, returned as stored, handed on to the "
+               "aggregated Hypergraphs): the harness passes fresh dicts and never edits a metadata dict it passed or got back; every "
+               "OTHER container passed in or returned is overwritten by the harness afterwards"]
 TRUSTED = ["Hypergraph objects returned by aggregate()/subhypergraph() are read through Hypergraph's public getters "
            "(Hypergraph.add_edge/add_node are modelled at spec level: HSpec in Model/C03.lean)",
-           "the spec-level Python oracle in harness/c03.py (class Spec) is hand-written from the property text"]
+           "the spec-level Python oracle in harness/c03.py (class Spec) is hand-written from the property text",
+           "container types, object identity and aliasing are outside the Lean model (value-based lists of ranks): they are "
+           "checked by the harness only (same history, same expected content)"]
 BUDGET_S = {"quick": 75, "thorough": 1500}
 
 VALPOOL = ["a", 7, 2.5, [1, "x"], {"z": 1}, None]
 RESERVED_VALS = {90: False, 91: True, 92: "TemporalHypergraph"}
 RESERVED_KEYS = {100: "weighted", 101: "type"}
-ALLT = list(range(0, 13))
+ALLT = list(range(0, 13))     # abstract time steps; a history multiplies them by its time scale (Gen.S)
+TSCALES = [1, 1, 1, 1, 257, 1000, 2 ** 40, 2 ** 64 + 3]
 ORDERS = [-1, 0, 1, 2, 3, 4]
 SIZES = [0, 1, 2, 3, 4, 5]
 
@@ -108,8 +135,39 @@ def w_tok(w):
         return "?%r" % (w,)
 
 
+def h32(*a):
+    return zlib.crc32(repr(a).encode())
+
+
+def fresh(v):
+    """an equal but newly constructed object: CPython shares only ints in [-5, 256], '' and one-character strings, so
+    identity tests (`is`) on labels / times / weights differ from equality tests for everything else"""
+    if isinstance(v, bool) or v is None:
+        return v
+    if isinstance(v, int):
+        return int(str(v))
+    if isinstance(v, float):
+        return float(repr(v))
+    if isinstance(v, str):
+        return "".join(list(v)) if len(v) > 1 else v
+    return _copy.deepcopy(v)
+
+
+def _np():
+    import numpy
+    return numpy
+
+
 def t_py(t):
-    return {"f": 1.5, "s": "3"}.get(t, t) if isinstance(t, str) else t
+    """time token -> python object.  ints are fresh objects; the string tokens are the values the unchanged code rejects as
+    times of an insertion: 'f' 1.5, 's' "3", 'F' 3.0 (integral float), 'n' numpy.int64(3), 'N' numpy.int32(0)"""
+    if isinstance(t, str):
+        if t == "n":
+            return _np().int64(3)
+        if t == "N":
+            return _np().int32(0)
+        return {"f": 1.5, "s": "3", "F": 3.0}[t]
+    return fresh(t)
 
 
 def t_wire(t):
@@ -155,23 +213,42 @@ def strip_edge_meta(a):
     return re.sub(r"(@-?\d+)=[^;|~]*", r"\1", a)
 
 
-class Timeout(Exception):
+def strip_nodes(a):
+    """drop the node part of every rendered Hypergraph `w~nodes~edges`"""
+    import re
+    return re.sub(r"~[^~|]*~", "~~", a)
+
+
+class Timeout(BaseException):
     pass
 
 
+def _alarm(sig, frm):
+    raise Timeout()
+
+
 class time_limit:
+    """SIGALRM guard.  Re-entrant: only the outermost scope installs the handler and arms the timer (arming it for every
+    single query cost a fifth of the run); a scope nested in a running one does nothing - unless it is left BY the alarm,
+    in which case it re-arms the timer so that the code that follows is guarded again."""
+    depth = 0
+
     def __init__(self, s):
         self.s = s
 
     def __enter__(self):
-        def h(sig, frm):
-            raise Timeout()
-        self.old = signal.signal(signal.SIGALRM, h)
-        signal.setitimer(signal.ITIMER_REAL, self.s)
+        time_limit.depth += 1
+        if time_limit.depth == 1:
+            self.old = signal.signal(signal.SIGALRM, _alarm)
+            signal.setitimer(signal.ITIMER_REAL, self.s)
 
-    def __exit__(self, *a):
-        signal.setitimer(signal.ITIMER_REAL, 0)
-        signal.signal(signal.SIGALRM, self.old)
+    def __exit__(self, et, ev, tb):
+        time_limit.depth -= 1
+        if time_limit.depth == 0:
+            signal.setitimer(signal.ITIMER_REAL, 0)
+            signal.signal(signal.SIGALRM, self.old)
+        elif et is not None and issubclass(et, Timeout):
+            signal.setitimer(signal.ITIMER_REAL, self.s)
         return False
 
 
@@ -532,91 +609,193 @@ class Spec:
 # ------------------------------------------------------------------------------------------------------------
 # the implementation side
 
-class Impl:
-    """runs ops/queries on real TemporalHypergraph objects; labels = lab[rank]"""
+EK = ["tuple", "list", "set", "frozenset", "gen", "nparray", "dictkeys", "range", "tuple", "list"]
+NK = ["list", "tuple", "set", "frozenset", "gen", "nparray", "dictkeys", "range", "list"]
+JUNK = "junk"
 
-    def __init__(self, lab):
+
+def pick(seq, *key):
+    return seq[h32(*key) % len(seq)]
+
+
+def batch_shape(salt, op):
+    """container types used for a batched insertion (add_edges / constructor): a pure function of the call, so that
+    replays and shrunk histories repeat it.  el/tl/wl/ml = containers of the edge list, time list, weights, metadata;
+    ek = container of every hyperedge (None: chosen per hyperedge)."""
+    name = op[0]
+    raws, ws = (op[2], op[4]) if name == "addedges" else (op[4], op[6])
+    k = h32(salt, json.dumps(op, sort_keys=True))
+    sh = {"el": "list", "tl": "list", "ek": None,
+          "wl": pick(["list", "tuple", "nparray"], k, "w"), "ml": pick(["list", "tuple"], k, "m")}
+    if name == "addedges":
+        r = k % 100
+        if r < 4:
+            sh["el"] = "tuple"
+        elif r < 8:
+            sh["tl"] = pick(["tuple", "nparray"], k, "t")
+    elif op[8]:
+        sh["el"] = pick(["list", "tuple"], k, "l")
+    if ws is not None:
+        allsorted = all(list(x) == sorted(x) for x in raws)
+        opts = ["tuple"] * 6 + (["frozenset"] * 4 if allsorted else []) + (["list"] if name == "addedges" else [])
+        sh["ek"] = pick(opts, k, "e")
+    return sh
+
+
+def batch_rejects(sh, raws, ws):
+    """what the unchanged add_edges does with these containers: edge list and time list must be `list`s; with weights
+    the duplicate test hashes the hyperedges as given (an unhashable hyperedge = TypeError before anything changes)"""
+    return sh["el"] != "list" or sh["tl"] != "list" or (ws is not None and len(raws) > 0 and sh["ek"] == "list")
+
+
+class Impl:
+    """runs ops/queries on real TemporalHypergraph objects; labels = fresh copies of lab[rank]"""
+
+    def __init__(self, lab, stats=None):
         self.lab = lab
-        self.rank = {repr(v): i for i, v in enumerate(lab)}
+        self.n = len(lab) - 1
+        self.rank = {v: i for i, v in enumerate(lab)}
+        self.salt = h32(lab)
         self.slots = {}
+        self.passed = []       # mutable containers handed to the implementation by the current call
+        self.held = []         # (result, copy taken when it was returned, query) - results the caller keeps
+        self.sc = 0
+        self.stats = {} if stats is None else stats
+        self.np_ok = (all(type(v) is int and abs(v) < 2 ** 62 for v in lab) or all(type(v) is float for v in lab)
+                      or all(type(v) is str for v in lab))
         _WC[0] = 0
 
+    # -- labels and argument containers --------------------------------------------------------------------------
+    def lb(self, i):
+        return fresh(self.lab[i])
+
     def L(self, raw):
-        return tuple(self.lab[x] for x in raw)
+        return tuple(self.lb(x) for x in raw)
 
     def R(self, x):
-        return self.rank.get(repr(x), "?" + repr(x))
+        try:
+            return self.rank.get(x, "?" + repr(x))
+        except Exception:
+            return "?" + repr(x)
 
     def RE(self, e):
-        return sorted(self.R(x) for x in e)
+        return sorted((self.R(x) for x in e), key=lambda r: (isinstance(r, str), r))
 
+    def cnt(self, site, kind):
+        d = self.stats.setdefault(site, {})
+        d[kind] = d.get(kind, 0) + 1
+
+    def keep(self, o):
+        self.passed.append(o)
+        return o
+
+    def coll(self, labs, kind, site):
+        """the labels `labs` in a container of the given kind (falls back to tuple / list where the kind cannot hold them)"""
+        if kind == "range":
+            if labs and all(type(v) is int for v in labs) and labs == list(range(labs[0], labs[0] + len(labs))):
+                self.cnt(site, kind)
+                return range(labs[0], labs[0] + len(labs))
+            kind = "tuple"
+        if kind == "nparray" and not self.np_ok:
+            kind = "list"
+        self.cnt(site, kind)
+        if kind == "tuple":
+            return tuple(labs)
+        if kind == "list":
+            return self.keep(labs)
+        if kind == "set":
+            return self.keep(set(labs))
+        if kind == "frozenset":
+            return frozenset(labs)
+        if kind == "gen":
+            return (x for x in labs)
+        if kind == "nparray":
+            return self.keep(_np().array(labs) if labs else _np().array([], dtype=int))
+        if kind == "dictkeys":
+            return self.keep({x: None for x in labs}).keys()
+        raise AssertionError(kind)
+
+    def E(self, raw, site, *key, kind=None):
+        """a hyperedge argument: fresh label objects in a container type chosen by a hash of the call"""
+        raw = list(raw)
+        return self.coll([self.lb(x) for x in raw], kind or pick(EK, self.salt, site, raw, key), site)
+
+    def NL(self, ns, site, allow_gen=True, seq_only=False):
+        ns = list(ns)
+        kinds = [k for k in NK if (allow_gen or k != "gen") and
+                 (not seq_only or k in ("list", "tuple", "gen", "nparray"))]
+        return self.coll([self.lb(x) for x in ns], pick(kinds, self.salt, site, ns), site)
+
+    def seq(self, items, kind):
+        if kind == "tuple":
+            return tuple(items)
+        if kind == "nparray":
+            np = _np()
+            try:
+                return self.keep(np.array(items) if all(isinstance(x, (int, float)) and not isinstance(x, bool) and
+                                                         abs(x) < 2 ** 62 for x in items) else np.array(items, dtype=object))
+            except Exception:
+                return self.keep(list(items))
+        return self.keep(list(items))
+
+    def scribble_in(self):
+        """aliasing IN: the caller goes on using (here: overwrites) every container it passed"""
+        for o in self.passed:
+            try:
+                if isinstance(o, list):
+                    o.clear()
+                    o.append(JUNK)
+                elif isinstance(o, (set, dict)):
+                    o.clear()
+                elif hasattr(o, "flat") and o.size:
+                    o[...] = o.flat[0]
+            except Exception:
+                pass
+        self.passed = []
+
+    def S(self, o, what="", hold_ok=True):
+        """aliasing OUT: the caller overwrites a returned list / set / dict (only called on results that the unchanged
+        code builds freshly; the metadata getters return the stored dicts by design and are left alone) - or, every
+        third time, keeps it: a result in the caller's hands must not change when the object is used later"""
+        self.sc += 1
+        if hold_ok and self.sc % 3 == 0 and isinstance(o, (list, set, dict)):
+            try:
+                self.held.append((o, _copy.deepcopy(o), what))
+            except Exception:
+                pass
+            del self.held[:-40]
+            return
+        try:
+            if isinstance(o, list):
+                o.clear()
+                o.append(JUNK)
+            elif isinstance(o, set):
+                o.clear()
+                o.add(JUNK)
+            elif isinstance(o, dict):
+                o.clear()
+                o[JUNK] = JUNK
+        except Exception:
+            pass
+
+    def check_held(self):
+        """None, or a description of a returned list / set / dict that changed after it had been returned"""
+        bad = None
+        for o, c, what in self.held:
+            try:
+                same = (o == c) and type(o) is type(c)
+            except Exception:
+                same = False
+            if not same and bad is None:
+                bad = "the result of %s was %r when returned and is %r now" % (what, c, o)
+        self.held = []
+        return bad
+
+    # -- mutators ------------------------------------------------------------------------------------------------
     def apply(self, op):
-        from hypergraphx import TemporalHypergraph
-        name = op[0]
         try:
             with time_limit(10):
-                if name == "new":
-                    self.slots[op[1]] = TemporalHypergraph(weighted=bool(op[2]))
-                    return "ok", None
-                if name == "ctor":
-                    _, slot, w, nmd, raws, ts, ws, mds, embed = op
-                    kw = dict(weighted=bool(w), weights=None if ws is None else [w_py(x) for x in ws],
-                              node_metadata=None if nmd is None else {self.lab[n]: md_py(m) for n, m in nmd},
-                              edge_metadata=None if mds is None else [md_py(m) for m in mds])
-                    if embed:
-                        h = TemporalHypergraph(edge_list=[(t_py(t), self.L(r)) for r, t in zip(raws, ts)], **kw)
-                    else:
-                        h = TemporalHypergraph(edge_list=[self.L(r) for r in raws], time_list=[t_py(t) for t in ts], **kw)
-                    self.slots[slot] = h
-                    return "ok", None
-                if name == "copy":
-                    self.slots[op[2]] = self.slots[op[1]].copy()
-                    return "ok", None
-                h, a = self.slots[op[1]], op[2:]
-                if name == "addnode":
-                    h.add_node(self.lab[a[0]], md_py(a[1])) if a[1] is not None else h.add_node(self.lab[a[0]])
-                elif name == "addnodes":
-                    h.add_nodes([self.lab[n] for n in a[0]],
-                                None if a[1] is None else {self.lab[n]: md_py(m) for n, m in a[1]})
-                elif name == "addedge":
-                    h.add_edge(self.L(a[0]), t_py(a[1]), weight=w_py(a[2]), metadata=md_py(a[3]))
-                elif name == "addedges":
-                    h.add_edges([self.L(r) for r in a[0]], [t_py(t) for t in a[1]],
-                                weights=None if a[2] is None else [w_py(x) for x in a[2]],
-                                metadata=None if a[3] is None else [md_py(m) for m in a[3]])
-                elif name == "rmedge":
-                    if a[2]:
-                        h.remove_edge((t_py(a[1]), self.L(a[0])))
-                    else:
-                        h.remove_edge(self.L(a[0]), t_py(a[1]))
-                elif name == "rmedges":
-                    h.remove_edges([(t_py(t), self.L(r)) for r, t in zip(a[0], a[1])])
-                elif name == "rmnode":
-                    h.remove_node(self.lab[a[0]], keep_edges=bool(a[1]))
-                elif name == "rmnodes":
-                    h.remove_nodes([self.lab[n] for n in a[0]], keep_edges=bool(a[1]))
-                elif name == "setw":
-                    h.set_weight(self.L(a[0]), t_py(a[1]), w_py(a[2]))
-                elif name == "setnmeta":
-                    h.set_node_metadata(self.lab[a[0]], md_py(a[1]))
-                elif name == "setemeta":
-                    h.set_edge_metadata(self.L(a[0]), t_py(a[1]), md_py(a[2]))
-                elif name == "sethmeta":
-                    h.set_hypergraph_metadata(md_py(a[0]))
-                elif name == "attrh":
-                    h.set_attr_to_hypergraph_metadata(key_py(a[0]), val_py(a[1]))
-                elif name == "attrn":
-                    h.set_attr_to_node_metadata(self.lab[a[0]], key_py(a[1]), val_py(a[2]))
-                elif name == "attre":
-                    h.set_attr_to_edge_metadata(self.L(a[0]), t_py(a[1]), key_py(a[2]), val_py(a[3]))
-                elif name == "delattrn":
-                    h.remove_attr_from_node_metadata(self.lab[a[0]], key_py(a[1]))
-                elif name == "delattre":
-                    h.remove_attr_from_edge_metadata(self.L(a[0]), t_py(a[1]), key_py(a[2]))
-                elif name == "clear":
-                    h.clear()
-                else:
-                    raise AssertionError(name)
+                self._apply(op)
                 return "ok", None
         except AssertionError:
             raise
@@ -626,7 +805,132 @@ class Impl:
             if isinstance(e, KeyboardInterrupt):
                 raise
             return "rej", "%s: %s" % (type(e).__name__, str(e)[:80])
+        finally:
+            self.scribble_in()
 
+    def _apply(self, op):
+        from hypergraphx import TemporalHypergraph
+        name = op[0]
+        oj = json.dumps(op, sort_keys=True)
+        omit = h32(self.salt, oj, "omit") % 2 == 0     # leave optional arguments that are None / default out
+        if name == "new":
+            self.slots[op[1]] = TemporalHypergraph() if (omit and not op[2]) else TemporalHypergraph(weighted=bool(op[2]))
+            return
+        if name == "ctor":
+            slot, w, nmd, raws, ts, ws, mds, embed = op[1:9]
+            hmd = op[9] if len(op) > 9 else None
+            sh = batch_shape(self.salt, op)
+            kw = {}
+            if w or not omit:
+                kw["weighted"] = bool(w)
+            if ws is not None:
+                kw["weights"] = self.seq([w_py(x) for x in ws], sh["wl"])
+            if nmd is not None:
+                kw["node_metadata"] = self.keep({self.lb(n): md_py(m) for n, m in nmd})
+            if mds is not None:
+                kw["edge_metadata"] = self.seq([md_py(m) for m in mds], sh["ml"])
+            if hmd is not None:
+                kw["hypergraph_metadata"] = md_py(hmd)
+            edges = [self.E(r, "ctor", i, kind=sh["ek"]) for i, r in enumerate(raws)]
+            if embed:
+                el = self.seq([(t_py(t), e) for e, t in zip(edges, ts)], sh["el"])
+                self.slots[slot] = TemporalHypergraph(edge_list=el, **kw)
+            else:
+                self.slots[slot] = TemporalHypergraph(edge_list=self.seq(edges, "list"),
+                                                      time_list=self.seq([t_py(t) for t in ts], "list"), **kw)
+            return
+        if name == "copy":
+            self.slots[op[2]] = self.slots[op[1]].copy()
+            return
+        h, a = self.slots[op[1]], op[2:]
+        if name == "addnode":
+            if a[1] is not None:
+                h.add_node(self.lb(a[0]), md_py(a[1])) if omit else h.add_node(self.lb(a[0]), metadata=md_py(a[1]))
+            else:
+                h.add_node(self.lb(a[0])) if omit else h.add_node(self.lb(a[0]), None)
+        elif name == "addnodes":
+            ns = self.NL(a[0], "addnodes", allow_gen=a[1] is None)
+            if a[1] is None:
+                h.add_nodes(ns) if omit else h.add_nodes(ns, None)
+            else:
+                h.add_nodes(ns, self.keep({self.lb(n): md_py(m) for n, m in a[1]}))
+        elif name == "addedge":
+            kw = {}
+            w, md = w_py(a[2]), md_py(a[3])
+            if w is not None or not omit:
+                kw["weight"] = w
+            if md is not None or not omit:
+                kw["metadata"] = md
+            h.add_edge(self.E(a[0], "addedge", a[1]), t_py(a[1]), **kw)
+        elif name == "addedges":
+            sh = batch_shape(self.salt, op)
+            edges = [self.E(r, "addedges", i, kind=sh["ek"]) for i, r in enumerate(a[0])]
+            kw = {}
+            if a[2] is not None:
+                kw["weights"] = self.seq([w_py(x) for x in a[2]], sh["wl"])
+            elif not omit:
+                kw["weights"] = None
+            if a[3] is not None:
+                kw["metadata"] = self.seq([md_py(m) for m in a[3]], sh["ml"])
+            elif not omit:
+                kw["metadata"] = None
+            h.add_edges(self.seq(edges, sh["el"]), self.seq([t_py(t) for t in a[1]], sh["tl"]), **kw)
+        elif name == "rmedge":
+            e, t = self.E(a[0], "rmedge", a[1]), t_py(a[1])
+            if a[2]:
+                h.remove_edge((t, e) if omit else self.keep([t, e]))
+            else:
+                h.remove_edge(e, t) if omit else h.remove_edge(e, time=t)
+        elif name == "rmedges":
+            recs0 = [(t_wire(t), tuple(r)) for r, t in zip(a[0], a[1])]
+            okinds = ["list", "tuple", "gen"] + (["set"] if len(set(recs0)) == len(recs0) else [])
+            outer = pick(okinds, self.salt, "rmedges", oj)
+            rs = []
+            for i, (r, t) in enumerate(zip(a[0], a[1])):
+                if outer == "set":
+                    rs.append((t_py(t), self.E(r, "rmedges", i, kind="tuple")))
+                else:
+                    e = self.E(r, "rmedges", i)
+                    rs.append((t_py(t), e) if (omit or i % 2) else self.keep([t_py(t), e]))
+            self.cnt("rmedges_outer", outer)
+            h.remove_edges(self.keep(set(rs)) if outer == "set" else (x for x in rs) if outer == "gen" else self.seq(rs, outer))
+        elif name == "rmnode":
+            if a[1] or not omit:
+                h.remove_node(self.lb(a[0]), keep_edges=bool(a[1]))
+            else:
+                h.remove_node(self.lb(a[0]))
+        elif name == "rmnodes":
+            # unordered containers only where the order of removal cannot matter (with keep_edges=True the metadata of
+            # merged records and the new ids depend on it) and where a repeated node is not what gets the call rejected
+            ns = self.NL(a[0], "rmnodes", seq_only=bool(a[1]) or len(set(a[0])) != len(a[0]))
+            if a[1] or not omit:
+                h.remove_nodes(ns, keep_edges=bool(a[1]))
+            else:
+                h.remove_nodes(ns)
+        elif name == "setw":
+            h.set_weight(self.E(a[0], "setw", a[1]), t_py(a[1]), w_py(a[2]))
+        elif name == "setnmeta":
+            h.set_node_metadata(self.lb(a[0]), md_py(a[1]))
+        elif name == "setemeta":
+            h.set_edge_metadata(self.E(a[0], "setemeta", a[1]), t_py(a[1]), md_py(a[2]))
+        elif name == "sethmeta":
+            h.set_hypergraph_metadata(md_py(a[0]))
+        elif name == "attrh":
+            h.set_attr_to_hypergraph_metadata(key_py(a[0]), val_py(a[1]))
+        elif name == "attrn":
+            h.set_attr_to_node_metadata(self.lb(a[0]), key_py(a[1]), val_py(a[2]))
+        elif name == "attre":
+            h.set_attr_to_edge_metadata(self.E(a[0], "attre", a[1]), t_py(a[1]), key_py(a[2]), val_py(a[3]))
+        elif name == "delattrn":
+            h.remove_attr_from_node_metadata(self.lb(a[0]), key_py(a[1]))
+        elif name == "delattre":
+            h.remove_attr_from_edge_metadata(self.E(a[0], "delattre", a[1]), t_py(a[1]), key_py(a[2]))
+        elif name == "clear":
+            h.clear()
+        else:
+            raise AssertionError(name)
+
+    # -- queries -------------------------------------------------------------------------------------------------
     def flt(self, o, s, u=None):
         kw = {}
         if o is not None:
@@ -641,7 +945,7 @@ class Impl:
         return f_rec(r[0], self.RE(r[1]))
 
     def srecs(self, rs):
-        return sorted(rs, key=lambda r: (r[0], self.RE(r[1])))
+        return sorted(rs, key=lambda r: (r[0], [(isinstance(x, str), x) for x in self.RE(r[1])]))
 
     def hobj(self, H, with_meta):
         nm = H.get_nodes(metadata=True)
@@ -649,6 +953,39 @@ class Impl:
         for e in H.get_edges():
             es.append((tuple(self.RE(e)), w_tok(H.get_weight(e)), f_meta(H.get_edge_metadata(e))))
         return f_hspec(H.is_weighted(), {self.R(n): f_meta(m) for n, m in nm.items()}, es)
+
+    def mut_h(self, H, attr_ok, key):
+        """the caller goes on working with a derived Hypergraph: structural edits (and, where the unchanged code hands
+        out fresh metadata dicts, attribute edits).  Whatever happens to H, the temporal hypergraph must not notice."""
+        def tr(f, *a, **k):
+            try:
+                f(*a, **k)
+            except Exception:
+                pass
+        try:
+            nodes, edges, wtd = list(H.get_nodes()), list(H.get_edges()), H.is_weighted()
+        except Exception:
+            return
+        absent = self.lb(self.n)
+        tr(H.add_node, absent, {"kx": "a"})
+        if nodes:
+            tr(H.add_edge, (nodes[0], absent), 3.0 if wtd else None, {"kx": "b"})
+            tr(H.set_node_metadata, nodes[0], {"kx": 1})
+            if attr_ok:
+                tr(H.set_attr_to_node_metadata, nodes[-1], "kx", 2)
+        if edges:
+            if wtd:
+                tr(H.set_weight, edges[0], 7.0)
+            tr(H.add_edge, edges[0], 2.0 if wtd else None, {"ky": 1})
+            if attr_ok:
+                tr(H.set_attr_to_edge_metadata, edges[-1], "kx", 2)
+            tr(H.set_edge_metadata, edges[-1], {"kx": 3})
+        if nodes:
+            tr(H.remove_node, nodes[-1], True)
+        if edges and key % 2:
+            tr(H.remove_edge, edges[0])
+        if key % 3 == 0:
+            tr(H.clear)
 
     def query(self, slot, q):
         try:
@@ -662,12 +999,20 @@ class Impl:
             if isinstance(e, KeyboardInterrupt):
                 raise
             return "rej"
+        finally:
+            self.scribble_in()
+
+    def win_py(self, win):
+        return [1, 2, 3] if win == "bad" else (fresh(win[0]), fresh(win[1]))
 
     def _query(self, h, q):
         name, a = q[0], q[1:]
-        lab = self.lab
+        S = lambda o, hold_ok=True: self.S(o, " ".join(str(x) for x in q), hold_ok)
         if name == "nodes":
-            return f_nodes(self.R(n) for n in h.get_nodes())
+            r = h.get_nodes()
+            out = f_nodes(self.R(n) for n in r)
+            S(r)
+            return out
         if name == "nodesmeta":
             d = h.get_nodes(metadata=True)
             d2 = h.get_all_nodes_metadata()
@@ -675,46 +1020,77 @@ class Impl:
             s2 = f_join("%s=%s" % (n, m) for n, m in sorted((self.R(n), f_meta(m)) for n, m in d2.items()))
             return s1 if s1 == s2 else "get_nodes(metadata)=%s / get_all_nodes_metadata=%s" % (s1, s2)
         if name == "checknode":
-            return "1" if h.check_node(lab[a[0]]) else "0"
+            return "1" if h.check_node(self.lb(a[0])) else "0"
         if name == "numnodes":
             return str(h.num_nodes())
         if name == "edges":
             win, o, s, u, m = a
             kw = self.flt(o, s, u)
             if win is not None:
-                kw["time_window"] = [1, 2, 3] if win == "bad" else tuple(win)
+                kw["time_window"] = self.win_py(win)
             if m:
                 d = h.get_edges(metadata=True, **kw)
-                return f_join(self.frec(r) + "=" + f_meta(d[r]) for r in self.srecs(d))
-            return f_join(self.frec(r) for r in self.srecs(h.get_edges(**kw)))
+                out = f_join(self.frec(r) + "=" + f_meta(d[r]) for r in self.srecs(d))
+                S(d, False)      # its values are the stored metadata dicts
+                return out
+            r = h.get_edges(**kw)
+            out = f_join(self.frec(x) for x in self.srecs(r))
+            S(r)
+            return out
         if name == "numedges":
             return str(h.num_edges(**self.flt(*a)))
         if name == "checkedge":
-            return "1" if h.check_edge(self.L(a[0]), t_py(a[1])) else "0"
+            return "1" if h.check_edge(self.E(a[0], "q_checkedge", a[1]), t_py(a[1])) else "0"
         if name == "weight":
-            return w_tok(h.get_weight(self.L(a[0]), t_py(a[1])))
+            return w_tok(h.get_weight(self.E(a[0], "q_weight", a[1]), t_py(a[1])))
         if name == "weights":
             o, s, u, d = a
             if d:
                 w = h.get_weights(asdict=True, **self.flt(o, s, u))
-                return f_join(self.frec(r) + "@" + w_tok(w[r]) for r in self.srecs(w))
-            return f_ints(int(w_tok(x)) for x in h.get_weights(**self.flt(o, s, u)))
+                out = f_join(self.frec(r) + "@" + w_tok(w[r]) for r in self.srecs(w))
+                S(w)
+                return out
+            w = h.get_weights(**self.flt(o, s, u))
+            out = f_ints(int(w_tok(x)) for x in w)
+            S(w)
+            return out
         if name == "incident":
-            return f_join(self.frec(r) for r in self.srecs(h.get_incident_edges(lab[a[0]], **self.flt(a[1], a[2]))))
+            r = h.get_incident_edges(self.lb(a[0]), **self.flt(a[1], a[2]))
+            out = f_join(self.frec(x) for x in self.srecs(r))
+            S(r)
+            return out
         if name == "neighbors":
-            return f_nodes(self.R(n) for n in h.get_neighbors(lab[a[0]], **self.flt(a[1], a[2])))
+            r = h.get_neighbors(self.lb(a[0]), **self.flt(a[1], a[2]))
+            out = f_nodes(self.R(n) for n in r)
+            S(r)
+            return out
         if name == "degree":
-            return str(h.degree(lab[a[0]], **self.flt(a[1], a[2])))
+            return str(h.degree(self.lb(a[0]), **self.flt(a[1], a[2])))
         if name == "degseq":
-            return f_map({self.R(n): d for n, d in h.degree_sequence(**self.flt(*a)).items()})
+            r = h.degree_sequence(**self.flt(*a))
+            out = f_map({self.R(n): d for n, d in r.items()})
+            S(r)
+            return out
         if name == "degdist":
-            return f_map(h.degree_distribution(**self.flt(*a)))
+            r = h.degree_distribution(**self.flt(*a))
+            out = f_map(r)
+            S(r)
+            return out
         if name == "sizes":
-            return f_ints(h.get_sizes())
+            r = h.get_sizes()
+            out = f_ints(r)
+            S(r)
+            return out
         if name == "orders":
-            return f_ints(h.get_orders())
+            r = h.get_orders()
+            out = f_ints(r)
+            S(r)
+            return out
         if name == "distsizes":
-            return f_map(h.distribution_sizes())
+            r = h.distribution_sizes()
+            out = f_map(r)
+            S(r)
+            return out
         if name == "maxsize":
             return str(h.max_size())
         if name == "maxorder":
@@ -724,24 +1100,30 @@ class Impl:
         if name == "weighted":
             return "1" if h.is_weighted() else "0"
         if name == "nmeta":
-            return f_meta(h.get_node_metadata(lab[a[0]]))
+            return f_meta(h.get_node_metadata(self.lb(a[0])))
         if name == "emeta":
-            return f_meta(h.get_edge_metadata(self.L(a[0]), t_py(a[1])))
+            return f_meta(h.get_edge_metadata(self.E(a[0], "q_emeta", a[1]), t_py(a[1])))
         if name == "allemeta":
             d = h.get_all_edges_metadata()
             return f_join("%s=%s" % (i, f_meta(d[i])) for i in sorted(d))
         if name == "hmeta":
             return f_meta(h.get_hypergraph_metadata())
         if name == "isolated":
-            return f_nodes(self.R(n) for n in h.isolated_nodes(**self.flt(*a)))
+            r = h.isolated_nodes(**self.flt(*a))
+            out = f_nodes(self.R(n) for n in r)
+            S(r)
+            return out
         if name == "isisolated":
-            return "1" if h.is_isolated(lab[a[0]], **self.flt(a[1], a[2])) else "0"
+            return "1" if h.is_isolated(self.lb(a[0]), **self.flt(a[1], a[2])) else "0"
         if name == "len":
             return str(len(h))
         if name == "iter":
             return f_join("%s#%s" % (self.frec(r), i) for r, i in sorted(((r, i) for r, i in h), key=lambda p: p[1]))
         if name == "timesfor":
-            return f_ints(h.get_times_for_edge(self.L(a[0])))
+            r = h.get_times_for_edge(self.E(a[0], "q_timesfor"))
+            out = f_ints(r)
+            S(r)
+            return out
         if name == "mintime":
             v = h.min_time()
             return "inf" if v == math.inf else str(v)
@@ -749,14 +1131,23 @@ class Impl:
             v = h.max_time()
             return "-inf" if v == -math.inf else str(v)
         if name == "snap":
-            win = a[0]
-            res = h.subhypergraph() if win is None else h.subhypergraph(
-                time_window=[1, 2] if win == "bad" else tuple(win))
-            return f_join(("%d>%s" % (t, self.hobj(res[t], False)) for t in sorted(res)), "|")
+            win, alln = a[0], (a[1] if len(a) > 1 else 0)
+            kw = {"add_all_nodes": True} if alln else {}
+            res = h.subhypergraph(**kw) if win is None else h.subhypergraph(
+                time_window=[1, 2] if win == "bad" else self.win_py(win), **kw)
+            out = f_join(("%d>%s" % (t, self.hobj(res[t], False)) for t in sorted(res)), "|")
+            for t in list(res):
+                self.mut_h(res[t], True, h32(t))
+            S(res, False)
+            return out
         if name == "agg":
             w = a[0]
-            res = h.aggregate({"x": 2.0, "y": "2"}.get(w, w) if isinstance(w, str) else w)
-            return f_join(("%d>%s" % (i, self.hobj(res[i], True)) for i in sorted(res)), "|")
+            res = h.aggregate({"x": 2.0, "y": "2"}.get(w, w) if isinstance(w, str) else fresh(w))
+            out = f_join(("%d>%s" % (i, self.hobj(res[i], True)) for i in sorted(res)), "|")
+            for i in list(res):
+                self.mut_h(res[i], False, i)
+            S(res, False)
+            return out
         raise AssertionError(name)
 
 
@@ -780,8 +1171,10 @@ def op_lines(op):
     if name == "new":
         return ["new %d %d" % (op[1], op[2])]
     if name == "ctor":
-        _, slot, w, nmd, raws, ts, ws, mds, embed = op
+        slot, w, nmd, raws, ts, ws, mds, embed = op[1:9]
         ls = ["new %d %d" % (slot, w)]
+        if len(op) > 9 and op[9] is not None:
+            ls.append("sethmeta %d %s" % (slot, wl_meta(ctor_hmeta(w, op[9]))))
         for n, m in (nmd or []):
             ls.append("addnode %d %d %s" % (slot, n, wl_meta(m)))
         ls.append(op_lines(["addedges", slot, raws, ts, ws, mds])[0])
@@ -831,6 +1224,14 @@ def op_lines(op):
     raise AssertionError(name)
 
 
+def ctor_hmeta(w, hmd):
+    """constructor: the caller's hypergraph metadata, then 'weighted' and 'type' written over it"""
+    d = {k: v for k, v in hmd}
+    d[100] = 91 if w else 90
+    d[101] = 92
+    return [[k, v] for k, v in d.items()]
+
+
 def oi(x):
     return "-" if x is None else str(x)
 
@@ -861,7 +1262,7 @@ def q_line(slot, q):
         return "%s %s %s" % (p, oi(a[0]), oi(a[1]))
     if name == "timesfor":
         return "%s %s" % (p, f_edge(a[0]))
-    if name == "snap":
+    if name == "snap":       # add_all_nodes is not on the wire: the unchanged code never adds a node for it
         return "%s %s" % (p, wl_win(a[0]))
     if name == "agg":
         return "%s %s" % (p, "x" if isinstance(a[0], str) else a[0])
@@ -882,8 +1283,16 @@ def filters(full):
     return fl
 
 
-def sweep_queries(rng, n, sp, full):
-    """every query with every filter; all windows; snapshots; all widths"""
+def cut_windows(sp, S, rng):
+    """windows placed at the records' own times: everything, all but the last time, all but the first, one time only,
+    an empty window at a record's time, an inverted one"""
+    ts = sorted({k[0] for k in sp.recs}) or [0, S]
+    lo, hi, mid = ts[0], ts[-1], rng.choice(ts)
+    return [(lo, hi + 1), (lo, hi), (lo + 1, hi + 1), (mid, mid + 1), (mid, mid), (hi + 1, lo), (-1, mid + 1)]
+
+
+def sweep_queries(rng, n, sp, full, S=1):
+    """every query with every filter; all windows; snapshots; all widths; time_window x order/size x up_to x metadata"""
     qs = [("nodes",), ("numnodes",), ("sizes",), ("orders",), ("distsizes",), ("maxsize",), ("maxorder",), ("uniform",),
           ("len",), ("mintime",), ("maxtime",)]
     fl = filters(full)
@@ -912,7 +1321,7 @@ def sweep_queries(rng, n, sp, full):
     probes = list(keys)
     for _ in range(4):
         e = rng.sample(range(n), rng.randint(0, min(3, n)))
-        probes.append((e, rng.choice(ALLT + [-1, "f", "s"])))
+        probes.append((e, rng.choice([t * S for t in ALLT] + [-1, "f", "s"])))
     for e, t in keys[:4]:
         probes.append((e, rng.choice([t + 1, "f", "s", -1])))
     for e, t in probes:
@@ -928,32 +1337,56 @@ def sweep_queries(rng, n, sp, full):
             rng.shuffle(e)
             qs.append(("timesfor", e))
     # windows
-    wins = [(a, b) for a in range(-1, 15) for b in range(-1, 15)]
+    g = tgrid(S)
+    wins = [(a, b) for a in g for b in g]
     for w in wins:
         qs.append(("edges", w, None, None, 0, 0))
     for w in rng.sample(wins, 40 if full else 16):
         o, s, u = rng.choice(fl)
         qs.append(("edges", w, o, s, u, rng.randint(0, 1)))
+    # the full product of the options of get_edges on windows that cut the records in every way
+    cw = cut_windows(sp, S, rng)
+    for w in (cw if full else rng.sample(cw, 3)):
+        for o, s, u in fl:
+            for m in (0, 1):
+                qs.append(("edges", w, o, s, u, m))
     qs.append(("edges", "bad", None, None, 0, 0))
-    qs.append(("snap", None))
-    qs.append(("snap", "bad"))
-    for w in rng.sample(wins, 30 if full else 12):
-        qs.append(("snap", w))
-    for w in range(1, 16):
+    qs.append(("edges", "bad", 1, None, 1, 1))
+    for alln in (0, 1):
+        qs.append(("snap", None, alln))
+        qs.append(("snap", "bad", alln))
+        for w in rng.sample(wins, 30 if full else 8) + rng.sample(cw, 3):
+            qs.append(("snap", w, alln))
+    for w in widths(S):
         qs.append(("agg", w))
-    for w in (0, -1, -3, "x", "y", 40):
+    for w in (0, -1, -3, "x", "y", 40 * S):
         qs.append(("agg", w))
     return qs
 
 
-def random_queries(rng, n, sp, k):
+def probe_queries(rng, n, g):
+    """a fixed set of questions per history, asked again after EVERY call: whatever the object memoises is filled before
+    the next call, so an answer that is not recomputed from the current content (stale cache) shows at once"""
+    x, y = rng.randrange(n), rng.randrange(n)
+    grid = tgrid(g.S)
+    a, b = sorted(rng.sample(grid, 2))
+    e0 = list(rng.choice(g.epool))
+    return [("neighbors", x, None, None), ("degree", y, None, None), ("incident", x, None, 2), ("isisolated", y, None, None),
+            ("isolated", None, None), ("degdist", None, None), ("degseq", 1, None), ("numedges", None, None, 0),
+            ("numedges", 1, None, 1), ("edges", (a, b), None, None, 0, 0), ("edges", None, None, 2, 1, 0),
+            ("weights", None, 2, 0, 0), ("timesfor", e0), ("mintime",), ("maxtime",), ("sizes",), ("distsizes",),
+            ("uniform",), ("maxsize",), ("len",), ("nodes",), ("numnodes",), ("agg", rng.choice(widths(g.S))), ("snap", None, 0)]
+
+
+def random_queries(rng, n, sp, k, S=1):
     qs = []
     fl = filters(False)
+    g = tgrid(S)
     for _ in range(k):
         r = rng.random()
         o, s, u = rng.choice(fl)
         if r < 0.2:
-            qs.append(("edges", rng.choice([None, (rng.randint(-1, 14), rng.randint(-1, 14))]), o, s, u, rng.randint(0, 1)))
+            qs.append(("edges", rng.choice([None, (rng.choice(g), rng.choice(g))]), o, s, u, rng.randint(0, 1)))
         elif r < 0.3:
             qs.append(("numedges", o, s, u))
         elif r < 0.45:
@@ -962,9 +1395,9 @@ def random_queries(rng, n, sp, k):
         elif r < 0.55:
             qs.append((rng.choice(["degseq", "degdist", "isolated"]), o if not u else None, s if not u else None))
         elif r < 0.65:
-            qs.append(("agg", rng.randint(1, 15)))
+            qs.append(("agg", rng.choice(widths(S))))
         elif r < 0.75:
-            qs.append(("snap", rng.choice([None, (rng.randint(-1, 14), rng.randint(-1, 14))])))
+            qs.append(("snap", rng.choice([None, (rng.choice(g), rng.choice(g))]), rng.randint(0, 1)))
         elif r < 0.85 and sp.recs:
             k0 = rng.choice(list(sp.recs))
             qs.append((rng.choice(["weight", "emeta", "checkedge"]), sorted(k0[1]), k0[0]))
@@ -976,7 +1409,7 @@ def random_queries(rng, n, sp, k):
 # ------------------------------------------------------------------------------------------------------------
 # direct property oracles on the implementation's own outputs (independent of Spec and of the model)
 
-def oracle_derivations(ctx, case, impl, slot, n, rng, full):
+def oracle_derivations(ctx, case, impl, slot, n, rng, full, S=1):
     h = impl.slots[slot]
     out = []
 
@@ -990,9 +1423,10 @@ def oracle_derivations(ctx, case, impl, slot, n, rng, full):
             wt = {k: int(w_tok(h.get_weight(rl[k][1], rl[k][0]))) for k in recs}
             weighted = h.is_weighted()
             nodes = sorted(impl.R(x) for x in h.get_nodes())
-            wins = [(a, b) for a in range(-1, 15) for b in range(-1, 15)]
+            g = tgrid(S)
+            wins = [(a, b) for a in g for b in g]
             for (a, b) in (wins if full else rng.sample(wins, 60)):
-                got = sorted((r[0], tuple(impl.RE(r[1]))) for r in h.get_edges(time_window=(a, b)))
+                got = sorted((r[0], tuple(impl.RE(r[1]))) for r in h.get_edges(time_window=(fresh(a), fresh(b))))
                 want = sorted(k for k in recs if a <= k[0] < b)
                 if got != want:
                     bad("get_edges(time_window=(%d,%d)) = %s, records with %d <= t < %d are %s" % (a, b, got, a, b, want))
@@ -1014,8 +1448,8 @@ def oracle_derivations(ctx, case, impl, slot, n, rng, full):
                             % (win, t, got, t, want))
                         break
             # aggregate
-            for w in (range(1, 16) if full else rng.sample(range(1, 16), 5)):
-                res = h.aggregate(w)
+            for w in (widths(S) if full else rng.sample(widths(S), 5)):
+                res = h.aggregate(fresh(w))
                 if not recs:
                     if len(res) != 0:
                         bad("aggregate(%d) of a hypergraph without records is not empty" % w)
@@ -1077,10 +1511,24 @@ def gen_md(rng, allow_none=True):
     return [[k, rng.randrange(len(VALPOOL))] for k in ks]
 
 
+def tgrid(S):
+    """window bounds: -1..14 for the plain time scale, else -1, the multiples of the scale up to 13*S and 12*S+1"""
+    return list(range(-1, 15)) if S == 1 else [-1] + [t * S for t in range(14)] + [12 * S + 1]
+
+
+def widths(S):
+    """aggregation widths that keep the number of windows small: 1..15 (plain scale) or multiples of the scale and
+    their neighbours"""
+    if S == 1:
+        return list(range(1, 16))
+    return [w * S for w in range(1, 12)] + [S - 1, S + 1, 3 * S - 1, 5 * S + 1]
+
+
 class Gen:
-    def __init__(self, rng, n, weighted):
-        self.rng, self.n, self.weighted = rng, n, weighted
-        self.tpool = rng.sample(ALLT, rng.randint(2, 4))
+    def __init__(self, rng, n, weighted, S=1):
+        self.rng, self.n, self.weighted, self.S = rng, n, weighted, S
+        self.allt = [t * S for t in ALLT]
+        self.tpool = rng.sample(self.allt, rng.randint(2, 4))
         if rng.random() < 0.5 and 0 not in self.tpool:
             self.tpool[0] = 0
         self.epool = [self.rand_set() for _ in range(rng.randint(3, 5))]
@@ -1090,7 +1538,7 @@ class Gen:
         return sorted(self.rng.sample(range(self.n), min(k, self.n)))
 
     def time(self):
-        return self.rng.choice(self.tpool) if self.rng.random() < 0.75 else self.rng.choice(ALLT)
+        return self.rng.choice(self.tpool) if self.rng.random() < 0.75 else self.rng.choice(self.allt)
 
     def edge(self):
         e = list(self.rng.choice(self.epool)) if self.rng.random() < 0.75 else self.rand_set()
@@ -1099,6 +1547,8 @@ class Gen:
 
     def weight(self, sp, ok=True):
         if sp.weighted:
+            if self.rng.random() < 0.04:
+                return self.rng.choice([4 * 2 ** 31, 4 * (2 ** 32 + 1), 2 ** 40 + 1])   # beyond int32 / float32
             return self.rng.choice([None, 4, 4, 2, 6, 8, 1, 3, 12, 0])
         if ok:
             return self.rng.choice([None, None, 4])
@@ -1117,8 +1567,31 @@ class Gen:
             return self.rng.choice(list(sp.nodes))
         return self.rng.randrange(self.n)
 
-    def badtime(self):
-        return self.rng.choice(["f", "s", -1, -2])
+    def badtime(self, insert=False):
+        """a time that must be rejected; integral floats and numpy integers only where a record is inserted (in lookups
+        3.0 and numpy.int64(3) are equal to the key 3, which the property does not speak about)"""
+        return self.rng.choice(["f", "s", -1, -2, -self.S] + (["F", "n", "N"] if insert else []))
+
+    def nested(self, sp):
+        """a record next to a present one: the same time, one node fewer or one node more - so that
+        remove_node(keep_edges=True) shrinks a record onto an existing one"""
+        big = [k for k in sp.recs if len(k[1]) >= 2]
+        if big and self.rng.random() < 0.7:
+            k = self.rng.choice(big)
+            e = sorted(k[1] - {self.rng.choice(sorted(k[1]))})
+        else:
+            ks = [k for k in sp.recs if 1 <= len(k[1]) <= 3 and len(k[1]) < self.n]
+            if not ks:
+                return None
+            k = self.rng.choice(ks)
+            e = sorted(k[1] | {self.rng.choice([x for x in range(self.n) if x not in k[1]])})
+        self.rng.shuffle(e)
+        return e, k[0]
+
+    def collapsing_node(self, sp):
+        """a node whose removal with keep_edges=True makes two records of one time coincide (None if there is none)"""
+        c = [x for k in sp.recs for x in k[1] if len(k[1]) >= 2 and (k[0], k[1] - {x}) in sp.recs]
+        return self.rng.choice(c) if c else None
 
     def op(self, slot, sp, two):
         rng = self.rng
@@ -1127,8 +1600,12 @@ class Gen:
         if r < 0.27:
             if mal:
                 if rng.random() < 0.6 or sp.weighted:
-                    return ["addedge", slot, self.edge(), self.badtime(), self.weight(sp), gen_md(rng)]
+                    return ["addedge", slot, self.edge(), self.badtime(True), self.weight(sp), gen_md(rng)]
                 return ["addedge", slot, self.edge(), self.time(), self.weight(sp, False), gen_md(rng)]
+            if sp.recs and rng.random() < 0.2:
+                et = self.nested(sp)
+                if et is not None:
+                    return ["addedge", slot, et[0], et[1], self.weight(sp), gen_md(rng)]
             if sp.recs and rng.random() < 0.35:
                 e, t = self.present(sp)
                 return ["addedge", slot, e, t, self.weight(sp), gen_md(rng)]
@@ -1148,10 +1625,16 @@ class Gen:
                             r2.append(e), t2.append(t), w2.append(w)
                     raws, ts, ws = r2, t2, w2
             mds = [gen_md(rng, False) for _ in raws] if rng.random() < 0.4 else None
+            if ws is not None and rng.random() < 0.3:
+                raws = [sorted(e) for e in raws]       # lets the batch be passed as frozensets (see batch_shape)
+                if not mal:
+                    keep = [i for i, e in enumerate(raws) if e not in raws[:i]]
+                    raws, ts, ws = [raws[i] for i in keep], [ts[i] for i in keep], [ws[i] for i in keep]
+                    mds = None if mds is None else [mds[i] for i in keep]
             if mal and raws:
                 c = rng.random()
                 if c < 0.4:
-                    ts[rng.randrange(len(ts))] = self.badtime()
+                    ts[rng.randrange(len(ts))] = self.badtime(True)
                 elif c < 0.55:
                     ts = ts[:-1]
                 elif c < 0.7 and ws is not None:
@@ -1183,11 +1666,18 @@ class Gen:
             return ["rmedges", slot, raws, ts]
         if r < 0.57:
             x = self.node(sp) if not mal else rng.randrange(self.n)
+            c = self.collapsing_node(sp)
+            if c is not None and not mal and rng.random() < 0.6:
+                return ["rmnode", slot, c, 1]
             return ["rmnode", slot, x, rng.randint(0, 1)]
         if r < 0.60:
             ns = list(sp.nodes)
             rng.shuffle(ns)
             ns = ns[:rng.randint(0, 2)]
+            c = self.collapsing_node(sp)
+            if c is not None and c not in ns and not mal and rng.random() < 0.5:
+                ns.insert(rng.randint(0, len(ns)), c)
+                return ["rmnodes", slot, ns, 1]
             if mal:
                 ns.append(rng.choice(ns) if ns and rng.random() < 0.5 else rng.randrange(self.n))
             return ["rmnodes", slot, ns, rng.randint(0, 1)]
@@ -1237,12 +1727,23 @@ class Gen:
 
 def make_labels(rng, n):
     """n node labels + one larger label (rank n) that is never inserted: the absent-node probes use it"""
-    kind = rng.choice(["int", "shift", "str"])
+    kind = rng.choice(["int", "shift", "str", "big", "big", "huge", "float", "rstr", "rstr"])
     if kind == "int":
         return kind, list(range(n + 1))
     if kind == "shift":
         base = rng.randint(5, 90)
         return kind, sorted(rng.sample(range(base, base + 3 * n), n + 1))
+    if kind == "big":         # ints outside CPython's small-int cache, with runs of consecutive values
+        base = rng.choice([250, 257, 1000, 10 ** 6, 2 ** 31 - 3])
+        return kind, sorted(rng.sample(range(base, base + n + 3), n + 1))
+    if kind == "huge":        # beyond 64 bits
+        base = rng.choice([2 ** 63 - 2, 2 ** 64 - 3, 10 ** 30])
+        return kind, sorted(rng.sample(range(base, base + 2 * n), n + 1))
+    if kind == "float":
+        return kind, sorted(x / 4 for x in rng.sample(range(-6, 30), n + 1))
+    if kind == "rstr":        # strings that exist only at run time (never interned)
+        pre = rng.choice(["n", "node-", "v_", " "])
+        return kind, sorted("%s%d" % (pre, x) for x in rng.sample(range(0, 40), n + 1))
     pool = ["", "A", "B", "Ba", "E1", "N0", "a", "ab", "b", "c", "zz"]
     return kind, sorted(rng.sample(pool, n + 1))
 
@@ -1250,11 +1751,17 @@ def make_labels(rng, n):
 # ------------------------------------------------------------------------------------------------------------
 # one history
 
+ID_QUERIES = ("allemeta", "iter")
+STATE = {"id_only": 0, "stats": {}}
+
+
 class Runner:
-    def __init__(self, ctx, drv, lab, kind):
-        self.ctx, self.drv, self.lab, self.kind = ctx, drv, lab, kind
+    def __init__(self, ctx, drv, lab, kind, tscale=1):
+        self.ctx, self.drv, self.lab, self.kind, self.S = ctx, drv, lab, kind, tscale
         self.n = len(lab) - 1
-        self.impl = Impl(lab)
+        self.impl = Impl(lab, STATE["stats"])
+        self.ids_off = False     # the model's edge ids went out of step (ids are not part of the property)
+        self.last = {}           # slot -> digest taken after the last call on it
         self.specs = {}
         self.ops = []
         self.failed = False
@@ -1264,7 +1771,7 @@ class Runner:
         self.ever = {}
 
     def case(self, extra=None):
-        c = {"labels": self.lab, "kind": self.kind, "ops": self.ops}
+        c = {"labels": self.lab, "kind": self.kind, "tscale": self.S, "ops": self.ops}
         if extra:
             c.update(extra)
         return c
@@ -1275,9 +1782,21 @@ class Runner:
             return
         ans = self.drv.batch(self.lines)
         for ln, a, (ex, cs) in zip(self.lines, ans, self.expect):
-            if ex is not None and a != ex and not self.failed:
-                self.failed = True
-                self.ctx.disagree(cs, "model answers %r to %r, implementation gives %r" % (a[:300], ln, ex[:300]))
+            if ex is None or a == ex or self.failed:
+                continue
+            if ln.split()[2:3] and ln.split()[0] == "q" and ln.split()[2] in ID_QUERIES:
+                # the two id listings are tied to the model only (the property does not speak of ids): report the
+                # difference (at most twice per run), stop comparing ids in this history and go on looking for an
+                # input on which a property-level observable is wrong
+                if not self.ids_off:
+                    self.ids_off = True
+                    self.ctx.count("id_listing_differences")
+                    if STATE["id_only"] < 2:
+                        STATE["id_only"] += 1
+                        self.ctx.disagree(cs, "model answers %r to %r, implementation gives %r" % (a[:300], ln, ex[:300]))
+                continue
+            self.failed = True
+            self.ctx.disagree(cs, "model answers %r to %r, implementation gives %r" % (a[:300], ln, ex[:300]))
         self.lines, self.expect = [], []
 
     def model(self, line, expect, extra=None):
@@ -1287,17 +1806,27 @@ class Runner:
     def ask(self, slot, q, use_spec=True):
         """query the implementation, compare with spec (violation) and queue the model line"""
         got = self.impl.query(slot, q)
+        alln = q[0] == "snap" and len(q) > 2 and q[2]
         if use_spec:
             want = self.specs[slot].query(q)
             # the property does not say which metadata an aggregated hyperedge carries: that detail is compared with
-            # the model only (a difference there is a broken correspondence, not a violation)
-            differs = (strip_edge_meta(got) != strip_edge_meta(want)) if (q[0] == "agg" and want is not None) else got != want
-            if want is not None and differs and not self.failed:
+            # the model only (a difference there is a broken correspondence, not a violation); it does not say either
+            # which nodes a snapshot taken with add_all_nodes=True has (hyperedges and weights are compared)
+            if want is None:
+                differs = False
+            elif q[0] == "agg":
+                differs = strip_edge_meta(got) != strip_edge_meta(want)
+            elif alln:
+                differs = strip_nodes(got) != strip_nodes(want)
+            else:
+                differs = got != want
+            if differs and not self.failed:
                 self.failed = True
                 self.ctx.violation(self.case({"slot": slot, "query": list(q)}),
-                                   "query %s on slot %d: implementation answers %s, the map of the same history gives %s"
-                                   % (q_line(slot, q), slot, got[:300], want[:300]))
-        self.model(q_line(slot, q), got, {"slot": slot, "query": list(q)})
+                                   "query %s%s on slot %d: implementation answers %s, the map of the same history gives %s"
+                                   % (q_line(slot, q), " add_all_nodes=True" if alln else "", slot, got[:300], want[:300]))
+        idq = q[0] in ID_QUERIES and (self.ids_off or STATE["id_only"] >= 2)
+        self.model(q_line(slot, q), None if (alln or idq) else got, {"slot": slot, "query": list(q)})
         return got
 
     def digest(self, slot, use_spec=True):
@@ -1306,7 +1835,33 @@ class Runner:
     def raw_digest(self, slot):
         return [self.impl.query(slot, q) for q in digest_queries(self.n)]
 
+    def guarded(self, secs, f, *a):
+        """one alarm for a whole step (the nested per-call guards are no-ops inside it)"""
+        try:
+            with time_limit(secs):
+                return f(*a)
+        except Timeout:
+            if not self.failed:
+                self.failed = True
+                self.ctx.violation(self.case(), "the implementation did not return within %d s (%s)" % (secs, f.__name__))
+            return None
+
     def do(self, op):
+        return self.guarded(20, self._do, op)
+
+    def sweep(self, slot, rng, full):
+        self.guarded(180 if full else 60, self._sweep, slot, rng, full)
+        self.flush()
+
+    def asks(self, slot, qs):
+        def _asks():
+            for q in qs:
+                self.ask(slot, q)
+                if self.failed:
+                    break
+        self.guarded(20, _asks)
+
+    def _do(self, op):
         """apply one op everywhere; returns the implementation's outcome"""
         name = op[0]
         self.ops.append(op)
@@ -1315,7 +1870,9 @@ class Runner:
             res, exc = self.impl.apply(op)
             sp = Spec(bool(op[2]))
             if name == "ctor":
-                _, _, w, nmd, raws, ts, ws, mds, embed = op
+                w, nmd, raws, ts, ws, mds, embed = op[2:9]
+                if len(op) > 9 and op[9] is not None:
+                    sp.hmeta = {k: v for k, v in ctor_hmeta(w, op[9])}
                 for x, m in (nmd or []):
                     sp.add_node(x, m)
                 sp.apply(["addedges", slot, raws, ts, ws, mds])
@@ -1326,7 +1883,7 @@ class Runner:
                 return res
             for ln in op_lines(op):
                 self.model(ln, "ok")
-            self.digest(slot)
+            self.last[slot] = self.digest(slot)
             return res
         if name == "copy":
             i, j = op[1], op[2]
@@ -1342,18 +1899,25 @@ class Runner:
             if self.raw_digest(i) != before:
                 self.failed = True
                 self.ctx.violation(self.case(), "copy() changed the source object")
-            self.digest(j)
+            self.last[j] = self.digest(j)
             return res
         slot = op[1]
         sp = self.specs[slot]
-        before = self.raw_digest(slot)
-        other = [(s, self.raw_digest(s)) for s in self.impl.slots if s != slot]
+        before = self.last.get(slot) or self.raw_digest(slot)
+        other = [(s, self.last.get(s) or self.raw_digest(s)) for s in self.impl.slots if s != slot]
         # bookkeeping for the non-triviality rule
         if name == "addedge" and valid_time(op[3]):
             k = (op[3], frozenset(op[2]))
             if k in self.ever:
                 self.reinsert_candidate = True
-        want = sp.apply(op)
+        # containers the unchanged add_edges refuses (edge / time list not a `list`, unhashable hyperedges together with
+        # weights): the call must be rejected as a whole; the model has no notion of container types and is not asked
+        shape_rej = name == "addedges" and batch_rejects(batch_shape(self.impl.salt, op), op[2], op[4])
+        if shape_rej:
+            want = "rej"
+            self.ctx.count("rejected_for_container_type")
+        else:
+            want = sp.apply(op)
         res, exc = self.impl.apply(op)
         self.ctx.count("op_" + name)
         self.ctx.count("accepted" if res == "ok" else "rejected")
@@ -1372,44 +1936,70 @@ class Runner:
                                "call %s: implementation %s%s, the map semantics %s"
                                % (op_lines(op)[0], "accepts" if res == "ok" else "rejects", " (%s)" % exc if exc else "",
                                   "accepts" if want == "ok" else "rejects"))
-        self.model(op_lines(op)[0], res, {"slot": slot})
-        after = self.raw_digest(slot)
+        if not (shape_rej and res != "ok"):
+            self.model(op_lines(op)[0], res, {"slot": slot})
+        changed = self.impl.check_held()
+        if changed and not self.failed:
+            self.failed = True
+            self.ctx.violation(self.case({"slot": slot}), "call %s changed a value returned by an earlier query: %s"
+                               % (op_lines(op)[0], changed[:400]))
+        after = self.raw_digest(slot) if res != "ok" else None
         if res != "ok" and after != before and not self.failed:
             self.failed = True
             self.ctx.violation(self.case({"slot": slot}), "rejected call %s (%s) changed the object: digest before %s, after %s"
                                % (op_lines(op)[0], exc, before, after))
-        self.digest(slot)
+        self.last[slot] = self.digest(slot)
         for s, d in other:
-            if self.raw_digest(s) != d and not self.failed:
+            d2 = self.raw_digest(s)
+            self.last[s] = d2
+            if d2 != d and not self.failed:
                 self.failed = True
                 self.ctx.violation(self.case({"slot": s}), "call %s on slot %d changed the independent copy in slot %d"
                                    % (op_lines(op)[0], slot, s))
         return res
 
-    def sweep(self, slot, rng, full):
+    def _sweep(self, slot, rng, full):
         before = self.raw_digest(slot)
-        for q in sweep_queries(rng, self.n, self.specs[slot], full):
+        qs = sweep_queries(rng, self.n, self.specs[slot], full, self.S)
+        for q in qs:
             self.ask(slot, q)
             if self.failed:
                 break
         if not self.failed:
-            oracle_ok = oracle_derivations(self.ctx, self.case({"slot": slot}), self.impl, slot, self.n, rng, full)
+            # every returned list / set / dict and every derived Hypergraph has been overwritten by now (Impl.S,
+            # Impl.mut_h): the same questions must still get the same answers (no view handed out, nothing cached)
+            # (each one twice in a row: a one-entry cache only shows on an immediate repetition)
+            for q in rng.sample(qs, min(len(qs), 60 if full else 20)) + [("agg", widths(self.S)[0]), ("snap", None, 0)]:
+                self.ask(slot, q)
+                self.ask(slot, q)
+                if self.failed:
+                    break
+        if not self.failed:
+            oracle_ok = oracle_derivations(self.ctx, self.case({"slot": slot}), self.impl, slot, self.n, rng, full, self.S)
             if not oracle_ok:
                 self.failed = True
+        changed = self.impl.check_held()
+        if changed and not self.failed:
+            self.failed = True
+            self.ctx.violation(self.case({"slot": slot}), "a later query changed a value returned by an earlier query: %s"
+                               % changed[:400])
         after = self.raw_digest(slot)
         if after != before and not self.failed:
             self.failed = True
             self.ctx.violation(self.case({"slot": slot}), "queries / window / snapshot / aggregate derivations changed the "
                                "temporal hypergraph: digest before %s, after %s" % (before, after))
-        self.flush()
+        self.last[slot] = after
 
 
 def run_history(ctx, drv, rng, full=False, nops=None):
     n = rng.randint(3, 6)
     kind, lab = make_labels(rng, n)
-    R = Runner(ctx, drv, lab, kind)
+    S = rng.choice(TSCALES)
+    R = Runner(ctx, drv, lab, kind, S)
+    ctx.count("labels_" + kind)
+    ctx.count("time_scale_%s" % (S if S < 10 ** 6 else "2^%d+" % (S.bit_length() - 1)))
     weighted = rng.random() < 0.5
-    g = Gen(rng, n, weighted)
+    g = Gen(rng, n, weighted, S)
     if rng.random() < 0.15:
         k = rng.randint(1, 4)
         raws = [g.edge() for _ in range(k)]
@@ -1418,11 +2008,15 @@ def run_history(ctx, drv, rng, full=False, nops=None):
         ws = [rng.choice([4, 2, 6, 0]) for _ in raws] if (weighted or rng.random() < 0.2) and rng.random() < 0.7 else None
         mds = [gen_md(rng, False) for _ in raws] if rng.random() < 0.5 else None
         nmd = [[x, gen_md(rng, False)] for x in rng.sample(range(n), rng.randint(1, 2))] if rng.random() < 0.5 else None
-        R.do(["ctor", 0, int(weighted), nmd, raws, ts, ws, mds, int(rng.random() < 0.5)])
+        hmd = None
+        if rng.random() < 0.5:
+            hmd = [[k, rng.randrange(len(VALPOOL))] for k in rng.sample([0, 1, 100], rng.randint(0, 2))]
+        R.do(["ctor", 0, int(weighted), nmd, raws, ts, ws, mds, int(rng.random() < 0.5), hmd])
     else:
         R.do(["new", 0, int(weighted)])
     nops = nops or rng.randint(6, 40)
     sweep_at = {rng.randrange(nops), nops - 1}
+    probes = probe_queries(rng, n, g)
     for i in range(nops):
         if R.failed:
             break
@@ -1432,8 +2026,7 @@ def run_history(ctx, drv, rng, full=False, nops=None):
         R.do(op)
         if R.failed:
             break
-        for q in random_queries(rng, n, R.specs[slot], 3):
-            R.ask(slot, q)
+        R.asks(slot, probes + random_queries(rng, n, R.specs[slot], 3, S))
         if i in sweep_at:
             R.sweep(slot, rng, full)
         elif i % 8 == 7:
@@ -1446,17 +2039,67 @@ def run_history(ctx, drv, rng, full=False, nops=None):
     return R
 
 
+# known finding D50 (by design): `_canon_edge` reads a 2-element hyperedge whose two elements are tuples as a directed
+# (sources, targets) pair - the inner tuples are sorted, the pair itself is not, and the "nodes" are the tuples' elements.
+# With tuple node labels the object is therefore not the map (time, node set) -> ... for hyperedges of two nodes.
+D50_WITNESS = {"labels": [[1, 2], [0, 5]], "time": 3,
+               "calls": ["add_edge(((1, 2), (0, 5)), 3)", "add_edge(((0, 5), (1, 2)), 3)"]}
+
+
+def tuple_label_witness(ctx):
+    """replayed on every run: two insertions of the node set {(1,2), (0,5)} at time 3 in both orders.  The map has one
+    record and the two nodes (1,2), (0,5); the unchanged code has two records and the nodes 1, 2, 0, 5.  Counted in the
+    evidence; printed as KNOWN-FINDING once an entry (property C03, class containing 'tuple node labels') is listed."""
+    from hypergraphx import TemporalHypergraph
+    a, b = tuple(D50_WITNESS["labels"][0]), tuple(D50_WITNESS["labels"][1])
+    t = D50_WITNESS["time"]
+    try:
+        with time_limit(10):
+            h = TemporalHypergraph()
+            h.add_edge((a, b), t)
+            h.add_edge((b, a), t)
+            n_rec, nodes = h.num_edges(), list(h.get_nodes())
+            h2 = TemporalHypergraph()
+            h2.add_edge(((2, 1), b), t)
+            nodes2, recs2 = list(h2.get_nodes()), list(h2.get_edges())
+        as_map = n_rec == 1 and sorted(nodes) == sorted([a, b])
+        observed = "%d records %s, nodes %s; add_edge(((2, 1), (0, 5)), 3) alone gives record %s and nodes %s" % (
+            n_rec, h.get_edges(), nodes, recs2, nodes2)
+    except Timeout:
+        as_map, observed = False, "timeout"
+    except Exception as e:
+        as_map, observed = False, "%s: %s" % (type(e).__name__, str(e)[:100])
+    if not as_map:
+        ctx.count("tuple_label_witness_reproduced")
+        ent = [f for f in getattr(ctx, "known_findings", []) or []
+               if f.get("property") == "C03" and "tuple node labels" in str(f.get("class", ""))]
+        if ent:
+            ctx.known(ent[0].get("id"), "call-site class 'tuple node labels: a 2-element hyperedge of two tuples is read as a "
+                      "directed pair by _canon_edge': the node set {(1, 2), (0, 5)} inserted at time 3 in both orders gives "
+                      + observed + " (the map has one record and the nodes (1, 2), (0, 5))")
+
+
 def silence():
     import hypergraphx.core.temporal_hypergraph as m
     m.print = lambda *a, **k: None
 
 
-def _attempt(ctx, drv, lab, kind, ops, use_model):
+def _attempt(ctx, drv, lab, kind, ops, use_model, tscale=1):
     """re-run `ops` from scratch with a private context; returns the first (case, what) found or None"""
     import random
     c2 = hgxv.Ctx(ctx.prop, "quick", 0)
     c2.model_available = use_model
-    R = Runner(c2, drv if use_model else None, lab, kind)
+    saved = STATE["id_only"]
+    STATE["id_only"] = 0
+    try:
+        return _attempt2(c2, drv, lab, kind, ops, use_model, tscale)
+    finally:
+        STATE["id_only"] = saved
+
+
+def _attempt2(c2, drv, lab, kind, ops, use_model, tscale):
+    import random
+    R = Runner(c2, drv if use_model else None, lab, kind, tscale)
     try:
         for op in ops:
             R.do(json.loads(json.dumps(op)))
@@ -1486,7 +2129,7 @@ def shrink(ctx, drv, lst, use_model, budget=12.0):
     i = len(ops) - 2
     while i >= 1 and time.time() < t_end:
         cand = ops[:i] + ops[i + 1:]
-        r = _attempt(ctx, drv, lab, kind, cand, use_model)
+        r = _attempt(ctx, drv, lab, kind, cand, use_model, case.get("tscale", 1))
         if r is not None:
             ops, best = list(r[0]["ops"]), r
             i = min(i, len(ops) - 1)
@@ -1509,9 +2152,14 @@ def run(ctx):
     drv = ctx.driver() if ctx.model_available else None
     n = ctx.scale(160, 3000)
     seen_kinds = set()
+    STATE["id_only"], STATE["stats"] = 0, {}
+    tuple_label_witness(ctx)
     for i in range(n):
         nv, nd = len(ctx.violations), len(ctx.disagreements)
         run_history(ctx, drv, ctx.rng, full=(ctx.tier == "thorough" and i % 10 == 0))
+        if len(ctx.violations) > nv and ("exc:timeout" in ctx.violations[-1][1] or "did not return" in ctx.violations[-1][1]
+                                         or "did not terminate" in ctx.violations[-1][1]):
+            break                             # a call that hangs: reported as it is, no shrinking, no further search
         if len(ctx.violations) > nv:
             k = kind_of(ctx.violations[-1][1])
             if k in seen_kinds:
@@ -1521,10 +2169,14 @@ def run(ctx):
                 seen_kinds.add(k)
                 shrink(ctx, drv, ctx.violations, False)
         elif len(ctx.disagreements) > nd:
-            shrink(ctx, drv, ctx.disagreements, True)
-        if ctx.too_many(5) or ctx.extra.get("repeated_violations", 0) > 40 or \
+            shrink(ctx, drv, ctx.disagreements, True, budget=12.0 if len(ctx.disagreements) <= 1 else 4.0)
+        # a difference in the id listings alone (at most two are recorded) does not end the search: the remaining
+        # histories look for an input on which the property itself fails
+        if len(ctx.violations) >= 3 or len(ctx.disagreements) >= 5 or ctx.extra.get("repeated_violations", 0) > 40 or \
                 (ctx.time_left() is not None and ctx.time_left() < 12):
             break
+    ctx.extra["argument_containers"] = {site: " ".join("%s:%d" % kv for kv in sorted(d.items()))
+                                        for site, d in sorted(STATE["stats"].items())}
 
 
 def replay(ctx, case):
@@ -1532,7 +2184,8 @@ def replay(ctx, case):
     silence()
     drv = ctx.driver() if ctx.model_available else None
     lab = case["labels"]
-    R = Runner(ctx, drv, lab, case.get("kind", "?"))
+    STATE["id_only"], STATE["stats"] = 0, {}
+    R = Runner(ctx, drv, lab, case.get("kind", "?"), case.get("tscale", 1))
     rng = ctx.rng
     for op in case["ops"]:
         op = json.loads(json.dumps(op))
